@@ -163,8 +163,18 @@ impl DocumentBlock {
 
     pub fn append_inline(&mut self, inline: DocumentInline, line_range: LineRange) {
         match self {
-            DocumentBlock::Plain(plain) => plain.inlines.push(inline),
-            DocumentBlock::Para(para) => para.inlines.push(inline),
+            // (the text of a tight list item arrives inline by inline: the block covers the
+            // lines of all of them, not only those of the first)
+            DocumentBlock::Plain(plain) => {
+                plain.line_range = plain.line_range.start.min(line_range.start)
+                    ..plain.line_range.end.max(line_range.end);
+                plain.inlines.push(inline)
+            }
+            DocumentBlock::Para(para) => {
+                para.line_range = para.line_range.start.min(line_range.start)
+                    ..para.line_range.end.max(line_range.end);
+                para.inlines.push(inline)
+            }
             DocumentBlock::CodeBlock(_) => {}
             DocumentBlock::RawBlock(_) => {}
             DocumentBlock::BlockQuote(block_quote) => {
